@@ -79,18 +79,55 @@ fn crate_source_ordered(items: &[String], order: &[usize]) -> String {
 /// module, in a nested module, in a function body, or produced by a `macro_rules!` expansion
 /// (its tokens then carry the macro definition's spans and hygiene).  The derive inputs are
 /// the same token for token.
-fn crate_source_surroundings(items: &[String], order: &[usize]) -> String {
-    let mut s = String::from("#![allow(warnings)]\n");
+fn crate_source_surroundings(items: &[String], order: &[usize]) -> (String, Vec<(String, String)>) {
+    // (the dependency is renamed in the other package's manifest)
+    let mut s = String::from("#![allow(warnings)]\nextern crate mapper as o2o;\n#[macro_use]\nmod defs;\n");
+    let mut defs = String::from("// macro definitions living in a file of their own\n");
     for i in order {
         let it = &items[*i];
-        match i % 4 {
+        match i % 5 {
             0 => s.push_str(&format!("pub mod m{} {{\nuse o2o::o2o;\n#[derive(o2o)]\n{}}}\n", i, it)),
             1 => s.push_str(&format!("pub mod m{} {{\npub mod inner {{ pub mod deeper {{\nuse o2o::o2o;\n#[derive(o2o)]\n{}}} }}\n}}\n", i, it)),
             2 => s.push_str(&format!("pub mod m{} {{\nfn surrounding_fn() {{\nuse o2o::o2o;\n#[derive(o2o)]\n{}}}\n}}\n", i, it)),
-            _ => s.push_str(&format!("pub mod m{} {{\nmacro_rules! make_item {{ () => {{\nuse o2o::o2o;\n#[derive(o2o)]\n{}}} }}\nmake_item!();\n}}\n", i, it)),
+            3 => s.push_str(&format!("pub mod m{} {{\nmacro_rules! make_item {{ () => {{\nuse o2o::o2o;\n#[derive(o2o)]\n{}}} }}\nmake_item!();\n}}\n", i, it)),
+            _ => {
+                // the item's own attributes are written at the invocation (this file), the rest
+                // of the item in the macro's definition (another file, other line numbers)
+                match split_leading_attrs(it) {
+                    Some((attrs, rest)) => {
+                        defs.push_str(&format!("macro_rules! make_split_{} {{ ($($a:tt)*) => {{\nuse o2o::o2o;\n#[derive(o2o)]\n$($a)*\n{}\n}} }}\n", i, rest));
+                        s.push_str(&format!("pub mod m{} {{\nmake_split_{}!(\n{}\n);\n}}\n", i, i, attrs));
+                    },
+                    None => s.push_str(&format!("pub mod m{} {{\nuse o2o::o2o;\n#[derive(o2o)]\n{}}}\n", i, it)),
+                }
+            },
         }
     }
-    s
+    (s, vec![("defs.rs".to_string(), defs)])
+}
+
+/// (leading `#[..]` attributes, everything after them), each as source text with the same tokens
+fn split_leading_attrs(item: &str) -> Option<(String, String)> {
+    use proc_macro2::{Delimiter, TokenTree};
+    let ts: proc_macro2::TokenStream = item.parse().ok()?;
+    let v: Vec<TokenTree> = ts.into_iter().collect();
+    let mut k = 0;
+    while k + 1 < v.len() {
+        let hash = matches!(&v[k], TokenTree::Punct(p) if p.as_char() == '#');
+        let group = matches!(&v[k + 1], TokenTree::Group(g) if g.delimiter() == Delimiter::Bracket);
+        if hash && group {
+            k += 2;
+        } else {
+            break;
+        }
+    }
+    let text = |t: &[TokenTree]| t.iter().cloned().collect::<proc_macro2::TokenStream>().to_string();
+    // `$` in a macro body would be read as a metavariable
+    let (a, r) = (text(&v[..k]), text(&v[k..]));
+    if a.contains('$') || r.contains('$') {
+        return None;
+    }
+    Some((a, r))
 }
 
 /// Token-level rendering of an expansion, module by module, with the surroundings unwrapped:
@@ -222,10 +259,11 @@ fn normalise_rej(rendering: &str, lib_rs: &str) -> String {
         let mut parts = l.rsplitn(2, '|');
         let pos = parts.next().unwrap_or("");
         let head = parts.next().unwrap_or("");
-        let line: usize = pos.split(':').next().and_then(|x| x.parse().ok()).unwrap_or(0);
+        let own_line: usize = pos.split(':').next().and_then(|x| x.parse().ok()).unwrap_or(0);
         let col = pos.split(':').nth(1).unwrap_or("");
+        let line: usize = pos.split(':').nth(2).and_then(|x| x.parse().ok()).unwrap_or(own_line);
         let (start, k) = starts.iter().rev().find(|(s, _)| *s <= line).copied().unwrap_or((0, usize::MAX));
-        out.push((k, seq, format!("m{}|{}|+{}:{}", k, head, line.saturating_sub(start), col)));
+        out.push((k, seq, format!("m{}|{}|+{}:{}", k, head, own_line.saturating_sub(start), col)));
     }
     // stable: diagnostics of one module keep their emitted order
     out.sort_by_key(|x| (x.0, x.1));
@@ -345,7 +383,13 @@ fn render_rej_once(dir: &Path, target: &Path, shim: &Path, rc: &RunCfg) -> Resul
         let m = &v["message"];
         let sp = &m["spans"][0];
         // one line per diagnostic: multi-line messages are flattened
-        r.push_str(&format!("{}|{}|{}:{}\n", m["level"].as_str().unwrap_or("?"), m["message"].as_str().unwrap_or("?").replace('\n', "\\n").replace('\r', ""), sp["line_start"], sp["column_start"]));
+        // (a token that came out of a macro_rules expansion is positioned in the macro's definition,
+        // possibly in another file: the outermost call site says which module the diagnostic belongs to)
+        let mut outer = sp;
+        while outer["expansion"].is_object() && outer["expansion"]["span"].is_object() {
+            outer = &outer["expansion"]["span"];
+        }
+        r.push_str(&format!("{}|{}|{}:{}:{}\n", m["level"].as_str().unwrap_or("?"), m["message"].as_str().unwrap_or("?").replace('\n', "\\n").replace('\r', ""), sp["line_start"], sp["column_start"], outer["line_start"]));
         n += 1;
     }
     if n == 0 {
@@ -443,16 +487,19 @@ fn prune_acc(dir: &Path, target: &Path, repo: &Path, backend: Backend, items: &[
 /// crate being compiled (CARGO_PKG_*, CARGO_CRATE_NAME, CARGO_MANIFEST_DIR, --edition,
 /// --crate-name) differs, the derive inputs do not
 fn setup_crate_as(dir: &Path, repo: &Path, backend: Backend, lib_rs: &str, alt: bool) -> Result<(), String> {
-    let (name, version, edition, extra) = if alt { ("tier-r-alt-pkg", "9.9.9", "2021", "authors = [\"Somebody Else <else@example.org>\"]\ndescription = \"another crate\"\n") } else { ("tier-r", "0.0.0", "2021", "") };
-    let manifest = format!(
-        "[package]\nname = \"{}\"\nversion = \"{}\"\nedition = \"{}\"\n{}\n[workspace]\n\n[lib]\npath = \"src/lib.rs\"\n\n[dependencies]\no2o = {{ path = \"{}\", default-features = false, features = [\"{}\"] }}\n",
-        name,
-        version,
-        edition,
-        extra,
-        repo.display(),
-        backend.tag()
-    );
+    setup_crate_files(dir, repo, backend, lib_rs, &[], alt)
+}
+
+/// (the other package also *renames* the dependency: `mapper = { package = "o2o", .. }`, brought
+/// back into scope under the name the generated code uses by `extern crate mapper as o2o;`)
+fn setup_crate_files(dir: &Path, repo: &Path, backend: Backend, lib_rs: &str, extra: &[(String, String)], alt: bool) -> Result<(), String> {
+    let (name, version, edition, extra_meta) = if alt { ("tier-r-alt-pkg", "9.9.9", "2021", "authors = [\"Somebody Else <else@example.org>\"]\ndescription = \"another crate\"\n") } else { ("tier-r", "0.0.0", "2021", "") };
+    let dep = if alt {
+        format!("mapper = {{ package = \"o2o\", path = \"{}\", default-features = false, features = [\"{}\"] }}", repo.display(), backend.tag())
+    } else {
+        format!("o2o = {{ path = \"{}\", default-features = false, features = [\"{}\"] }}", repo.display(), backend.tag())
+    };
+    let manifest = format!("[package]\nname = \"{}\"\nversion = \"{}\"\nedition = \"{}\"\n{}\n[workspace]\n\n[lib]\npath = \"src/lib.rs\"\n\n[dependencies]\n{}\n", name, version, edition, extra_meta, dep);
     write_if_changed(&dir.join("Cargo.toml"), &manifest);
     if !dir.join("Cargo.lock").exists() {
         // Cargo.lock is not tracked by the repository: a scratch worktree has none
@@ -460,6 +507,9 @@ fn setup_crate_as(dir: &Path, repo: &Path, backend: Backend, lib_rs: &str, alt: 
         if lock.exists() {
             std::fs::copy(&lock, dir.join("Cargo.lock")).map_err(|e| format!("copy Cargo.lock: {}", e))?;
         }
+    }
+    for (name, content) in extra {
+        write_if_changed(&dir.join("src").join(name), content);
     }
     write_if_changed(&dir.join("src/lib.rs"), lib_rs);
     Ok(())
@@ -617,11 +667,11 @@ pub fn run(cfg: &Cfg, corpus: &Corpus) -> Result<TierResult, String> {
                 let original = crate_source(items);
                 let order: Vec<usize> = (0..items.len()).rev().collect();
                 // ... each item in other surroundings (nested module, function body, macro_rules expansion)
-                let reversed = crate_source_surroundings(items, &order);
+                let (reversed, extra_files) = crate_source_surroundings(items, &order);
                 // ... compiled as a *different package* (other name, version, edition, manifest
                 // directory), sharing the temp dir of the runs above
                 let alt_dir = base.join(format!("{}-{}-alt", backend.tag(), kind));
-                setup_crate_as(&alt_dir, &cfg.repo, backend, &reversed, true)?;
+                setup_crate_files(&alt_dir, &cfg.repo, backend, &reversed, &extra_files, true)?;
                 let _ = std::fs::remove_dir_all(alt_dir.join("tmp"));
                 let rc = &runs[runs.len() - 1];
                 let r = if kind == "rej" { render_rej(&alt_dir, &target, &shim, rc) } else { render_acc_mode(&alt_dir, &target, &shim, rc, false) };
@@ -649,9 +699,9 @@ pub fn run(cfg: &Cfg, corpus: &Corpus) -> Result<TierResult, String> {
                     let _ = std::fs::create_dir_all(cfg.verif.join("replays"));
                     let v = json!({
                         "property": "C19", "kind": "rustc_tier", "permuted": true,
-                        "what": "real cargo/rustc with the real o2o-macros dylib expanded the same items differently when the crate was compiled as another package (name, version, edition, manifest directory) with its modules in reversed source order and every item in other surroundings (nested module, function body, macro_rules expansion) (all derives of a crate run in one rustc process, in source order)",
+                        "what": "real cargo/rustc with the real o2o-macros dylib expanded the same items differently when the crate was compiled as another package (name, version, edition, manifest directory) with the dependency renamed in the manifest, its modules in reversed source order and every item in other surroundings (nested module, function body, macro_rules expansion in the same or from another file) (all derives of a crate run in one rustc process, in source order)",
                         "backend": backend.tag(), "crate_kind": kind, "repo": cfg.repo.to_string_lossy(),
-                        "lib_rs": original, "lib_rs_permuted": reversed, "o2o_messages": sel.o2o_messages.iter().cloned().collect::<Vec<_>>(),
+                        "lib_rs": original, "lib_rs_permuted": reversed, "extra_files": extra_files.iter().map(|(n, c)| json!([n, c])).collect::<Vec<_>>(), "o2o_messages": sel.o2o_messages.iter().cloned().collect::<Vec<_>>(),
                         "reference_run": runcfg_json(&runs[0]), "faulty_run": runcfg_json(rc),
                         "first_diff": fd,
                     });
@@ -722,7 +772,8 @@ pub fn replay(cfg: &Cfg, v: &Value, path: &Path) -> i32 {
         let reversed = v["lib_rs_permuted"].as_str().unwrap_or("").to_string();
         let msgs: std::collections::BTreeSet<String> = v["o2o_messages"].as_array().map(|a| a.iter().filter_map(|x| x.as_str().map(|s| s.to_string())).collect()).unwrap_or_default();
         let alt_dir = base.join(format!("{}-{}-alt", backend.tag(), kind));
-        if setup_crate_as(&alt_dir, &cfg.repo, backend, &reversed, true).is_err() {
+        let extra_files: Vec<(String, String)> = v["extra_files"].as_array().map(|a| a.iter().filter_map(|x| Some((x[0].as_str()?.to_string(), x[1].as_str()?.to_string()))).collect()).unwrap_or_default();
+        if setup_crate_files(&alt_dir, &cfg.repo, backend, &reversed, &extra_files, true).is_err() {
             return 2;
         }
         let r = if kind == "rej" { render_rej(&alt_dir, &target, &shim, &b) } else { render_acc_mode(&alt_dir, &target, &shim, &b, false) };
